@@ -101,6 +101,9 @@ func decodeKinds(format string, data []byte, kind int) outcome {
 	total, totalCPU, totalSys := first.Micros, first.CpuUs, first.SysUs
 	for _, k := range kinds[1:] {
 		o := decodeHere(format, data, k)
+		if o.Cls == clsCrash && strings.HasPrefix(o.Msg, "harness:") {
+			continue // the temporary file could not be written (full tmpfs): this reader kind is skipped, not judged
+		}
 		total += o.Micros
 		totalCPU += o.CpuUs
 		totalSys += o.SysUs
@@ -316,13 +319,20 @@ var tmpSeq int
 
 // the prefix as a file on disk (reader kind "file"): the path-taking entry points open it themselves
 func writeTemp(data []byte) (string, error) {
-	dir := os.Getenv("C14_TMP")
-	if dir == "" {
-		dir = os.TempDir()
-	}
 	tmpSeq++
-	path := fmt.Sprintf("%s/c14-%d-%d.bin", dir, os.Getpid(), tmpSeq%2)
-	return path, os.WriteFile(path, data, 0o600)
+	var path string
+	var err error
+	for _, dir := range []string{os.Getenv("C14_TMP"), os.TempDir()} {
+		if dir == "" {
+			continue
+		}
+		path = fmt.Sprintf("%s/c14-%d-%d.bin", dir, os.Getpid(), tmpSeq%2)
+		if err = os.WriteFile(path, data, 0o600); err == nil {
+			return path, nil
+		}
+		os.Remove(path)
+	}
+	return path, err
 }
 
 // decodeHere runs the real decoder in this process under recover().
